@@ -10,7 +10,7 @@ key exactly when they are equal, so a Hash finds a key iff it contains an equal 
 neither merge distinct values nor keep equal ones apart (NaN and Sensitive excepted).
 
 Model: `Pcore/Model/ValueEq.lean` — `veq` (the `Equals` methods), `key`/`kb` (`px.ToKey` byte for byte), `hashGet`,
-`unique`; types as values for Any Undef String Integer Float Enum Array Variant Tuple Optional Type (`tyEq`, `tyKey`).
+`unique`; Timespan (compared and keyed by whole seconds) and Timestamp values; types as values for Any Undef String Integer Float Enum Array Variant Tuple Optional Type (`tyEq`, `tyKey`).
 The model has no hidden state at all: `Equals`/`ToKey` are functions of the value; that the implementation agrees with
 them before and after forcing its caches is what the correspondence run checks.
 
@@ -40,7 +40,7 @@ Full statement / proved / missing
   (`Generated/KeyTable.lean`: the `HkXxx` constants and the leading bytes each `ToKey` writes): they are the bytes the
   model writes, and the eleven kinds have pairwise distinct two-byte heads.  A change of a prefix byte in the code breaks
   this obligation.
-* missing: value kinds and types outside the model (Timespan, Timestamp, SemVer, SemVerRange, URI, objects; String types
+* missing: value kinds and types outside the model (SemVer, SemVerRange, URI, objects; String types
   with a size or value, Struct, Hash, Pattern, Object, Callable … types): no theorem, only the harness predicate where
   generated.  Hidden state: by correspondence only (see above).
 -/
@@ -220,6 +220,8 @@ def modelHeads : List (String × List Nat) := [
   ("floatValue", ((kb (.float 0)).take 2).map (·.toNat)),
   ("Regexp", (kb (.regexp [])).map (·.toNat)),
   ("TupleType", ((tyKey (.tup [] none)).take 2).map (·.toNat)),
+  ("Timespan", ((kb (.timespan 0)).take 2).map (·.toNat)),
+  ("Timestamp", ((kb (.timestamp 0 0)).take 2).map (·.toNat)),
   ("UndefValue", (kb .undef).map (·.toNat)),
   ("DefaultValue", (kb .dflt).map (·.toNat)),
   ("hkTrue", (kb (.bool true)).map (·.toNat)),
@@ -229,8 +231,8 @@ def modelHeads : List (String × List Nat) := [
 
 theorem C07_key_table_ok : Pcore.Generated.keyHeads = modelHeads := by decide
 
-/-- eleven kinds, eleven different two-byte heads (Array = HashEntry, Tuple = every other type, true/false share one) -/
-theorem C07_prefixes_distinct : ((Pcore.Generated.keyHeads.map (·.2.take 2)).eraseDups).length = 11 := by decide
+/-- thirteen kinds, thirteen different two-byte heads (Array = HashEntry, Tuple = every other type, true/false share one) -/
+theorem C07_prefixes_distinct : ((Pcore.Generated.keyHeads.map (·.2.take 2)).eraseDups).length = 13 := by decide
 
 /-! ## non-vacuity: the hypotheses are met by non-trivial cases -/
 
@@ -253,6 +255,12 @@ example : key sampleX = key sampleY :=
     (by decide)
 example : key sampleX ≠ key sampleZ := fun h =>
   absurd (C07_key_inj _ _ (by decide) (by decide) (TopSafe_of_not_str rfl rfl) h) (by decide)
+/-- a Timespan is compared and keyed by its whole seconds (1s = 1.5s, both ways), a Timestamp by seconds and nanoseconds -/
+example : key (.array [.timespan 1000000000, .timestamp 1 0]) = key (.array [.timespan 1500000000, .timestamp 1 0]) :=
+  (C07_key_iff _ _ (by decide) (by decide) (TopSafe_of_not_str rfl rfl) (TypeKeysAgree_of_no_types (Or.inl (by decide)))).mpr
+    (by decide)
+example : veq (.timestamp 1 0) (.timestamp 1 500000000) = false ∧ veq (.timespan (-1500000000)) (.timespan (-1000000000)) = true := by
+  decide
 /-- transitivity through a cross-kind step: entry = array = entry -/
 example : veq (.entry (.int 1) (.int 2)) (.entry (.int 1) (.int 2)) = true :=
   C07_trans (.entry (.int 1) (.int 2)) (.array [.int 1, .int 2]) _ (by decide) (by decide) (by decide) (by decide)
